@@ -26,6 +26,8 @@ import (
 	"github.com/nais/wonderwall/pkg/cookie"
 	"github.com/nais/wonderwall/pkg/handler"
 	"github.com/nais/wonderwall/pkg/mock"
+	openidclient "github.com/nais/wonderwall/pkg/openid/client"
+	"github.com/nais/wonderwall/pkg/openid/provider"
 	openidconfig "github.com/nais/wonderwall/pkg/openid/config"
 	"github.com/nais/wonderwall/pkg/router"
 	"github.com/nais/wonderwall/pkg/session"
@@ -54,6 +56,8 @@ type sutOpts struct {
 	ssoServerURL   string
 	ssoDefaultURL  string
 	legacyCookie   bool
+	realJwks       bool     // fetch the JWKS over HTTP through provider.NewJwksProvider (incl. its post-fetch key mutator)
+	audiences      []string // additional trusted audiences
 	tweak          func(*config.Config)
 }
 
@@ -208,11 +212,22 @@ func (s *sut) replicaMode(name, mode string) *replica {
 	cfg := s.makeCfg(name)
 	s.o.mode = saved
 	rp := &replica{name: name, cfg: cfg}
-	jw := &mock.TestProvider{JwksPair: s.idp.keys}
+	var jw openidclient.JwksProvider = &mock.TestProvider{JwksPair: s.idp.keys}
 	ocfg := *s.ocfg
 	tc := *s.ocfg.TestClient
 	tc.Config = cfg
 	ocfg.TestClient = &tc
+	if len(s.o.audiences) > 0 {
+		cfg.OpenID.Audiences = s.o.audiences
+		ocfg.TestClient = mock.NewTestConfiguration(cfg).TestClient // trusted audiences are fixed at construction
+	}
+	if s.o.realJwks {
+		p, err := provider.NewJwksProvider(context.Background(), &ocfg)
+		if err != nil {
+			panic(err)
+		}
+		jw = p
+	}
 	switch mode {
 	case "sso-proxy":
 		p, err := handler.NewSSOProxy(cfg, s.crypter)
